@@ -128,6 +128,7 @@ pub fn run_case(line: &str) -> String {
         "task" => crate::tscen::run(&w[1..]),
         "q" => crate::channel::qscen::run_seq(&w[1..]),
         "qc" => crate::channel::qscen::run_conc(&w[1..]),
+        "bs" => crate::ports::output::bscen::run(&w[1..]),
         k => format!("ERR unknown-kind {}", k),
     }
 }
